@@ -1,12 +1,14 @@
 (** C08 — Routing fidelity.  Statements only.
     PARTIAL: proved are the local routing rules (only configured downstream neighbours are offered a part, each once,
     longest-idle first; a gate passes only parts its predicate accepts; a blocked input refuses; the stored part's history
-    is the offered history plus the device; identities never change).  History without gaps along a whole route,
+    is the offered history plus the device; identities never change), and — over every exception-free history, also inside a
+    run — that a handler, processor or sink which reports a waiting-for-part time (the key of the longest-idle order) holds
+    nothing (the invariant the repair of D9 restored).  History without gaps along a whole route,
     group-path matching and sink arrival order over a run are decided by the routing monitor and the lock-step. *)
 From Coq Require Import ZArith List Bool Lia Sorting.Permutation Sorting.Sorted.
 From RecordUpdate Require Import RecordUpdate.
 From SimVerif Require Import Model.Base Model.Env Model.FamEnv Model.RM Model.Maint Model.FloorTypes Model.Floor Model.FamFloor.
-From SimVerif Require Import Proofs.RMInv Proofs.EnvInv Proofs.EnvPause Proofs.FloorSteps Proofs.FloorInv Proofs.FloorSys Proofs.FloorProc Proofs.FloorFlow Proofs.FloorRes.
+From SimVerif Require Import Proofs.RMInv Proofs.EnvInv Proofs.EnvPause Proofs.FloorSteps Proofs.FloorInv Proofs.FloorSys Proofs.FloorProc Proofs.FloorFlow Proofs.FloorRes Proofs.FloorLink Proofs.FloorIdle Proofs.FloorTimer Proofs.FloorWait.
 Import ListNotations.
 Open Scope Z_scope.
 
@@ -54,3 +56,53 @@ Example C08_nonvacuous :
   decide (DQualityGe 8) (ISingle (mkPart 1 0 4 [] [])) = false /\ decide (DQualityLt 8) (ISingle (mkPart 1 0 4 [] [])) = true /\
   p_hist (item_head (item_add_hist 7 (ISingle (mkPart 1 0 4 [3] [])))) = [3; 7].
 Proof. repeat split. Qed.
+
+(** * the waiting-for-part time is reported by empty devices only (every exception-free history, also inside a run).
+    System initialisation stamps every holder without looking at its slots, so the statement asks that the INITIALISED world is
+    right — a computable condition on the scenario, [wait_okb]: every handler, processor or sink that carries a stamp has
+    both slots empty.  (It fails only when a Source whose first cycle has length zero is created before the device it feeds;
+    the Python code dereferences [env = None] there.) *)
+Theorem C08_waiting_device_holds_nothing : forall sc s d z,
+  wait_okb (fst (fst (do_fxop sc (fq_world sc, init_env) FXInit))) = true ->
+  reach_in sc s ->
+  d_kind (getd (fst s) d) = KHandler \/ d_kind (getd (fst s) d) = KProcessor \/ d_kind (getd (fst s) d) = KSink ->
+  d_wait_since (getd (fst s) d) = Some z ->
+  d_part (getd (fst s) d) = None /\ d_out (getd (fst s) d) = None.
+Proof.
+  intros sc s d z I0 HR K W. apply (waiting_device_holds_nothing sc s d z I0 HR); [|exact W].
+  destruct K as [K|[K|K]]; rewrite K; reflexivity.
+Qed.
+
+Theorem C08_wait_okb_def : forall w, wait_okb w = true <->
+  forall d x, In (d, x) (f_devs w) -> tracked (d_kind x) = true -> d_wait_since x <> None -> d_part x = None /\ d_out x = None.
+Proof.
+  intro w. unfold wait_okb. rewrite forallb_forall. split.
+  - intros H d x Hin T W. specialize (H _ Hin). cbn [snd] in H. unfold waitb in H. rewrite T in H. cbn in H.
+    destruct (d_wait_since x); [|congruence]. cbn in H. apply andb_true_iff in H. destruct H as [A B].
+    destruct (d_part x); [discriminate|]. destruct (d_out x); [discriminate|]. auto.
+  - intros H [d x] Hin. cbn [snd]. specialize (H d x Hin). unfold waitb. destruct (tracked (d_kind x)); [|reflexivity].
+    destruct (d_wait_since x); [|reflexivity]. destruct (H eq_refl ltac:(discriminate)) as [-> ->]. reflexivity.
+Qed.
+
+Print Assumptions C08_waiting_device_holds_nothing.
+Print Assumptions C08_wait_okb_def.
+
+(** Non-vacuity: source -> processor (cycle 24) -> sink.  The initialised world passes the condition with processor and sink
+    waiting since 0; three events later the processor works on a part and reports no waiting time, the sink still waits. *)
+Definition c08_world : fw :=
+  mkFw [(1, (blank_dev KSource) <| d_down := [2] |> <| d_cycle := 8 |>);
+        (2, (blank_dev KProcessor) <| d_up := [1] |> <| d_down := [3] |> <| d_cycle := 24 |>);
+        (3, (blank_dev KSink) <| d_up := [2] |>)] [] init_rs [] 10 [] [] 0.
+Definition c08_sc : fl_scn := mkFlScn 1 1 c08_world [] [].
+Definition c08_s0 := fst (do_fxop c08_sc (c08_world, init_env) FXInit).
+Definition c08_s3 := fx_steps c08_sc 3 c08_s0.
+Example C08_waiting_nonvacuous :
+  wait_okb (fst c08_s0) = true /\ reach_in c08_sc c08_s3 /\
+  map (fun d => d_wait_since (getd (fst c08_s0) d)) [2; 3] = [Some 0; Some 0] /\
+  map (fun d => (d_wait_since (getd (fst c08_s3) d), is_none (d_part (getd (fst c08_s3) d)))) [2; 3] = [(None, false); (Some 0, true)].
+Proof.
+  assert (R0 : reach_ok c08_sc c08_s0).
+  { apply ro_init; [vm_compute; reflexivity|]. unfold c08_s0. vm_compute. reflexivity. }
+  split; [vm_compute; reflexivity|]. split; [apply reach_ok_in, fx_steps_reach; [exact R0|vm_compute; reflexivity]|].
+  split; vm_compute; reflexivity.
+Qed.
